@@ -93,6 +93,9 @@ func (c05) Gen(r *rand.Rand, tier string, idx int) *core.Plan {
 	// the caller hands over the context-aware validator AND the deprecated client (which finds nothing wrong): the
 	// statement's subject is the validator
 	w["both"] = int64(r.IntN(4) / 3)
+	// in the first round the revocation service takes five minutes to answer while the caller's context ends after
+	// one: whatever the library makes of that, the later rounds are judged as ever
+	w["stall"] = int64(r.IntN(4) / 3)
 	return p
 }
 
@@ -223,7 +226,26 @@ func (l c05) Exec(env *core.Env) *core.Result {
 				}
 			}
 			faultsBefore := task.FaultsSeen
-			outcome, verr := verifyEntry(ctx, v, entryOf(w), desc, sig, format)
+			cctx, stalled := ctx, false
+			val.Stall = 0
+			if w["stall"] == 1 && k == 0 && int(w["rounds"]) > 1 {
+				var cancel context.CancelFunc
+				cctx, cancel = context.WithTimeout(ctx, time.Minute)
+				defer cancel()
+				val.Stall, stalled = 5*time.Minute, true
+				res.Probe("revocation_service_slower_than_the_callers_deadline")
+			}
+			outcome, verr := verifyEntry(cctx, v, entryOf(w), desc, sig, format)
+			val.Stall = 0
+			if stalled && verr != nil && (errors.Is(verr, context.DeadlineExceeded) || outcome == nil || cctx.Err() != nil) {
+				// giving up at the deadline is failing closed; how the rest of this round reads is not judged
+				if outcome != nil && outcome.Error == nil {
+					res.Violate("C05/no-outcome", fmt.Sprint("stalled round n=", n), "verification failed (%v) with an outcome that carries no error", verr)
+				}
+				sim.Abstract(fmt.Sprint("stalled-round gave up ", verr != nil))
+				res.Nontrivial = true
+				return
+			}
 			// what counts is how the LAST consultation ended: with an injected transport fault, or with the scripted answer
 			injected := len(val.Faulted) > 0 && val.Faulted[len(val.Faulted)-1]
 			_ = faultsBefore
